@@ -201,21 +201,28 @@ def eval_expr(I, st, env, e, frame):
             if isinstance(vs, Raised):
                 out.append((s2, vs))
                 continue
-            out.append((s2, Cat([p if isinstance(p, str) else ('fmt', vs[p[1]], p[2], p[3]) for p in layout])))
+            parts = []
+            for p in layout:
+                if isinstance(p, str):
+                    parts.append(p)
+                    continue
+                v = vs[p[1]]
+                if not p[2] and p[3] in ('', 's') and isinstance(v, Cat):
+                    parts.extend(v.parts)       # a string value is inserted unchanged
+                elif not p[2] and p[3] in ('', 's') and isinstance(v, Str):
+                    parts.append(v.s)
+                else:
+                    parts.append(('fmt', v, p[2], p[3]))
+            out.append((s2, Cat(parts) if parts else Str('')))
         return out
     if isinstance(e, ast.ListComp):
         from .loops import listcomp
         return listcomp(I, st, env, e, frame)
     if isinstance(e, ast.GeneratorExp):
-        # evaluated eagerly: element expressions of the package's generator expressions are effect free
-        from .loops import listcomp
-        out = []
-        for (s2, v) in listcomp(I, st, env, e, frame):
-            if isinstance(v, Obj) and v.oid in s2.seqs:
-                out.append((s2, IterV(s2.seqs[v.oid], 'genexp')))
-            else:
-                out.append((s2, v))
-        return out
+        # lazy: consumed element by element by any()/all() (short circuit, one abstract iteration per element);
+        # every other consumer materialises it like a list comprehension
+        from .values import GenV
+        return [(st, GenV(e, dict(env), frame))]
     if isinstance(e, ast.Lambda):
         return [(st, FuncV(frame.mod, e))]
     if isinstance(e, ast.Starred):
@@ -273,7 +280,29 @@ def lookup_name(I, st, env, name, frame):
         return ModuleRef('%s.%s' % (imp[1], imp[2]))
     if (mod, name) in m.consts:
         node = m.consts[(mod, name)]
-        if isinstance(node, (ast.BinOp, ast.UnaryOp, ast.Attribute)):
+        if isinstance(node, ast.Dict) and st is not None:
+            # module-level lookup table (possibly of lambdas): built in the current state; only read by the package
+            from .absint import Frame
+            oid = 'const:%s.%s' % (mod, name)
+            if oid not in st.maps:
+                fr0 = Frame(None, mod, ast.parse('def _c(): pass').body[0], 0)
+                items = []
+                ok = all(k is not None for k in node.keys)
+                for kn, vn in zip(node.keys, node.values):
+                    if not ok:
+                        break
+                    rk = I.eval(st, {}, kn, fr0)
+                    rv = I.eval(st, {}, vn, fr0)
+                    if len(rk) != 1 or len(rv) != 1:
+                        ok = False
+                        break
+                    items.append(('kv', rk[0][1], rv[0][1]))
+                if ok:
+                    st.maps[oid] = tuple(items)
+                    st.cls[oid] = 'dict'
+            if oid in st.maps:
+                return Obj(oid)
+        if isinstance(node, (ast.BinOp, ast.UnaryOp, ast.Attribute, ast.Tuple, ast.List, ast.Set)):
             # arithmetic over symbolic constants such as 2 * math.pi: evaluate abstractly
             from .absint import Frame
             from .state import State
@@ -281,8 +310,10 @@ def lookup_name(I, st, env, name, frame):
                 r = I.eval(State(), {}, node, Frame(None, mod, ast.parse('def _c(): pass').body[0], 0))
             except Exception:  # noqa
                 r = []
-            if len(r) == 1 and isinstance(r[0][1], Num):
+            if len(r) == 1 and isinstance(r[0][1], (Num, TupleV, Str)):
                 return r[0][1]
+            if len(r) == 1 and isinstance(r[0][1], Obj) and r[0][1].oid in r[0][0].seqs:
+                return TupleV(r[0][0].seqs[r[0][1].oid])
         # non-foldable module constant (compiled regex, ...)
         return Opaque('const:%s.%s' % (mod, name))
     if name in ('True', 'False', 'None'):
@@ -293,8 +324,25 @@ def lookup_name(I, st, env, name, frame):
     raise Unsupported('unresolved name %s in %s' % (name, frame.qual()))
 
 
+def materialise_gen(I, st, g):
+    """[(state, IterV)] - a generator expression evaluated like the list comprehension it abbreviates"""
+    from .loops import listcomp
+    out = []
+    for (s2, v) in listcomp(I, st, g.env, g.node, g.frame):
+        if isinstance(v, Obj) and v.oid in s2.seqs:
+            out.append((s2, IterV(s2.seqs[v.oid], 'genexp')))
+        else:
+            out.append((s2, v))
+    return out
+
+
 def seq_elements(I, st, v):
     """element list of an abstract sequence value (Stars preserved)"""
+    if type(v).__name__ == 'GenV':
+        r = materialise_gen(I, st, v)
+        if len(r) != 1 or r[0][0] is not st or not isinstance(r[0][1], IterV):
+            raise Unsupported('generator expression with forking elements used as a sequence')
+        return list(r[0][1].elems)
     if isinstance(v, TupleV):
         return list(v.elems)
     if isinstance(v, Obj) and v.oid in st.seqs:
